@@ -26,12 +26,17 @@ def model_post(exp, mo):
 def known_finding(case, kind, detail):
     d = str(detail)
     g = case["gen"]
-    if g == "AlternatingCrossover" and "complete" in d:
-        return "ac-unequal-slates-truncate"
-    if g == "CambridgeSampler":
-        return "cambridge-unavailable-or-partial"
-    if g in ("short_name_PL", "name_PL") and "Err(EValue)" in d:
-        return None
+    if g == "AlternatingCrossover" and "complete rankings" in d:
+        nz = [sum(1 for v in case["intervals"][b][b2].values() if v > 0) for b in case["blocs"] for b2 in case["blocs"]]
+        zero = any(v == 0 for b in case["blocs"] for b2 in case["blocs"] for v in case["intervals"][b][b2].values())
+        if len(set(nz)) > 1 or zero:
+            return "ac-truncates-unequal-slates"
+    if g == "name_BT_MCMC" and "Err(EIndex)" in d:
+        nz = [sum(1 for b2 in case["blocs"] for c, v in case["intervals"][b][b2].items() if v > 0 and case["cohesion"][b][b2] > 0) for b in case["blocs"]]
+        if min(nz) <= 1:
+            return "bt-mcmc-single-candidate"
+    if g == "slate_BT_MCMC" and "Err(EZeroDiv)" in d and any(case["cohesion"][b][b] == 0 for b in case["blocs"]):
+        return "slate-bt-mcmc-zero-cohesion"
     return None
 
 
